@@ -17,7 +17,7 @@ import (
 	kit "verifkit"
 )
 
-const c03LocRIBRule = "2..5 pairwise distinct BGP paths for one prefix (later ones mostly one-attribute mutations of earlier ones) added to a LocRIB in generated order; checked: no candidate is strictly preferred by the reference decision process over LocRIB.Get(pfx).BestPath(). Non-trivial: the best path beats its strongest competitor at the identifier step or later."
+const c03LocRIBRule = "2..5 pairwise distinct BGP paths for one prefix (later ones mostly one-attribute mutations of earlier ones) added to a LocRIB in generated order, followed by 0..3 updates of stored paths (ReplacePath(old,new) as an import policy replacement does, or RemovePath+AddPath); checked after every step: no candidate is strictly preferred by the reference decision process over LocRIB.Get(pfx).BestPath(). Non-trivial: the best path beats its strongest competitor at the identifier step or later."
 
 func TestVerifC03LocRIBBest(t *testing.T) {
 	rec := kit.NewRecorder(t, "C03", c03LocRIBRule)
@@ -34,34 +34,70 @@ func TestVerifC03LocRIBBest(t *testing.T) {
 			c.Logf("p%d=%v", i, s)
 			rib.AddPath(pfx, objs[i])
 		}
-		best := rib.Get(pfx).BestPath()
-		bi := -1
-		for i, o := range objs {
-			if o == best {
-				bi = i
+		specOf := map[*route.Path]kit.SelPath{}
+		for i := range objs {
+			specOf[objs[i]] = specs[i]
+		}
+		late := kit.SelStepNone
+		// check: no path currently stored for the prefix is strictly preferred over the Loc-RIB's best path
+		check := func(when string) {
+			cur := rib.Get(pfx).Paths()
+			best := rib.Get(pfx).BestPath()
+			bs, ok := specOf[best]
+			if !ok {
+				t.Fatalf("%s: best path is not one of the objects handed to the Loc-RIB", when)
+			}
+			for _, o := range cur {
+				if o == best {
+					continue
+				}
+				os, ok := specOf[o]
+				if !ok {
+					t.Fatalf("%s: Loc-RIB holds a path object it was never given", when)
+				}
+				sign, step := kit.SelRefCompare(os, bs)
+				if sign > 0 {
+					t.Fatalf("%s: Loc-RIB best path loses at step %s of the decision process\nbest   %v\nbetter %v", when, kit.SelStepName(step), bs, os)
+				}
+				if sign < 0 && step > late {
+					late = step
+				}
+				c.Class("step_" + kit.SelStepName(step))
 			}
 		}
-		if bi < 0 {
-			t.Fatalf("best path is not one of the added objects")
-		}
-		// reference maximum (the reference is a total preorder on BGP paths)
-		late := kit.SelStepNone
-		minStep := 99
-		for i := range specs {
-			if i == bi {
+		check("after the insertions")
+		// Updates of stored paths, the way the Adj-RIB-In delivers them: an import policy replacement calls
+		// ReplacePath(old, new), a re-announcement RemovePath(old) + AddPath(new).
+		nUpd := rapid.IntRange(0, 3).Draw(t, "updates")
+		for u := 0; u < nUpd; u++ {
+			cur := rib.Get(pfx).Paths()
+			if len(cur) == 0 {
+				break
+			}
+			old := cur[rapid.IntRange(0, len(cur)-1).Draw(t, "upd_idx")]
+			ns, what := d.Mutate(t, specOf[old], "upd")
+			dup := false
+			for _, o := range cur {
+				if specOf[o].String() == ns.String() {
+					dup = true
+				}
+			}
+			if dup || ns.Static {
 				continue
 			}
-			sign, step := kit.SelRefCompare(specs[i], specs[bi])
-			if sign > 0 {
-				t.Fatalf("Loc-RIB best path p%d loses to p%d at step %s of the decision process\nbest p%d=%v\nbetter p%d=%v", bi, i, kit.SelStepName(step), bi, specs[bi], i, specs[i])
+			no := selToPath(ns)
+			specOf[no] = ns
+			if rapid.Bool().Draw(t, "upd_replace") {
+				c.Logf("ReplacePath %v -> %v (%s)", specOf[old], ns, what)
+				c.Class("update_replacepath")
+				rib.ReplacePath(pfx, old, no)
+			} else {
+				c.Logf("RemovePath+AddPath %v -> %v (%s)", specOf[old], ns, what)
+				c.Class("update_remove_add")
+				rib.RemovePath(pfx, old)
+				rib.AddPath(pfx, no)
 			}
-			if sign < 0 && step > late {
-				late = step
-			}
-			if step < minStep {
-				minStep = step
-			}
-			c.Class("step_" + kit.SelStepName(step))
+			check("after an update")
 		}
 		c.NonTrivialIf(late >= kit.SelStepID)
 	})
